@@ -111,6 +111,78 @@ def escapeName (fixed : Bool) (name : List Byte) : NB :=
   let b := nameLoop fixed nbInit name
   { b with oob := b.oob || decide (cap ≤ b.pos) }
 
+/-! ## `spec_buf[2048]`: the argument / return value string of an event
+
+`get_argspec_string(task, spec_buf, sizeof(spec_buf), NEEDS_JSON | …)` (cmds/replay.c:431)
+prints through the same `print_args` / `print_char` pair.  Two repairs are modelled:
+`abuf` — `print_args` drops a piece that does not fit instead of advancing past the end
+(`*len` wrapped around and every later store went out of the buffer), `print_char` keeps
+room for the NUL (finding C15-ARGBUF); `asym` — names taken from the data (the symbol a
+pointer argument resolves to) go through the escaper instead of `%s` (finding C15-ARGSYM). -/
+
+/-- one value of the argument list, as far as the text depends on it -/
+inductive ArgVal where
+  /-- ARG_FMT_STR / ARG_FMT_STD_STRING: the `slen` payload bytes -/
+  | str (bs : List Byte) (std : Bool)
+  /-- ARG_FMT_CHAR -/
+  | chr (c : Byte)
+  /-- ARG_FMT_PTR whose value lies in a symbol: "&name" -/
+  | sym (name : List Byte)
+  /-- every other format: the text printf produces for the value (digits, 0x…, floats,
+      "<ENUM?> 1f", "{...}"): one `print_args` call -/
+  | raw (text : List Byte)
+  deriving Repr, DecidableEq
+
+/-- `print_args`; `abuf`: `if (x < 0 || (size_t)x >= *len) { if (*len) **args = 0; return; }` -/
+def pA (abuf : Bool) (b : NB) (s : List Byte) : NB :=
+  if abuf && decide (b.len ≤ s.length) then b else printArgs b s
+
+/-- `print_char`; `abuf`: `if (*len < 2) return;` -/
+def pC (abuf : Bool) (b : NB) (c : Byte) : NB :=
+  if abuf && decide (b.len < 2) then b else printChar b c
+
+/-- `print_json_escaped_char` -/
+def pE (abuf : Bool) (b : NB) (c : Byte) : NB :=
+  if viaChar c then pC abuf b c else pA abuf b (escapeChar c)
+
+/-- `str[slen] = 0; while (*p)`: the bytes up to the first NUL -/
+def cstr : List Byte → List Byte
+  | [] => []
+  | c :: r => if c = 0 then [] else c :: cstr r
+
+/-- the body of the `list_for_each_entry` loop for one value (without the ", ") -/
+def argPiece (abuf asym : Bool) (b : NB) : ArgVal → NB
+  | .str bs std =>
+    let b1 :=
+      if bs = [255, 255, 255, 255] then pA abuf b b!"NULL"     -- slen == 4 && !memcmp(str, &null_str, 4)
+      else pA abuf ((cstr bs).foldl (pE abuf) (pA abuf b [92, 34])) [92, 34]
+    if std then pA abuf b1 [115] else b1
+  | .chr c => pA abuf (pE abuf (pA abuf b [39]) c) [39]
+  | .sym name =>
+    if asym then name.foldl (pE abuf) (pA abuf b [38]) else pA abuf b (38 :: name)
+  | .raw t => pA abuf b t
+
+/-- the loop over the values that match `is_retval`: ", " between two values,
+    `if (len <= 2) break; if (is_retval) break;` after each -/
+def argLoop (abuf asym retval : Bool) : Bool → NB → List ArgVal → NB
+  | _, b, [] => b
+  | first, b, v :: vs =>
+    let b1 := if first then b else pA abuf b b!", "
+    let b2 := argPiece abuf asym b1 v
+    if b2.len ≤ 2 ∨ retval = true then b2 else argLoop abuf asym retval false b2 vs
+
+/-- `spec_buf` at the start: `len = sizeof(spec_buf)` -/
+def sbInit : NB := { out := [], term := false, pos := 0, len := cap, oob := false }
+
+/-- `get_argspec_string` in JSON mode with HAS_MORE: arguments in parentheses
+    (NEEDS_PAREN), the return value bare and terminated by `args[0] = 0` at the end -/
+def argString (abuf asym retval : Bool) (vs : List ArgVal) : NB :=
+  if retval then
+    let b := argLoop abuf asym true true sbInit vs
+    { b with oob := b.oob || decide (cap ≤ b.pos) }
+  else
+    pA abuf (argLoop abuf asym false true (pA abuf sbInit [40]) vs) [41]
+
 /-! ## numbers -/
 
 def digit (n : Nat) : Byte := 48 + n % 10
@@ -142,6 +214,8 @@ structure Ev where
   pid : Nat
   name : List Byte
   time : Nat
+  /-- `frs->more`: the values of the argument list (ENTRY) / the return value (EXIT) -/
+  args : Option (List ArgVal)
   deriving Repr, DecidableEq
 
 /-- `uftrace_basename` -/
@@ -178,17 +252,38 @@ def headerFix (comm : List Byte) (tasks : List Task) : List Byte × Bool :=
 def header (fixed : Bool) (comm : List Byte) (tasks : List Task) : List Byte × Bool :=
   if fixed then headerFix comm tasks else headerPre comm tasks
 
-/-- one event object (records without arguments) -/
-def evText (fixed : Bool) (e : Ev) : List Byte :=
+/-- which repairs are in: `main` = F9, F9b, S3 (all in /repo), `abuf` = C15-ARGBUF,
+    `asym` = C15-ARGSYM -/
+structure Fix where
+  main : Bool
+  abuf : Bool
+  asym : Bool
+  deriving Repr, DecidableEq
+
+def Fix.all : Fix := ⟨true, true, true⟩
+/-- /repo as it is -/
+def Fix.repo : Fix := ⟨true, false, false⟩
+def Fix.none : Fix := ⟨false, false, false⟩
+
+/-- the end of an event object: "}" or `,"args":{"arguments":"%s"}}` / `,"args":{"retval":"%s"}}` -/
+def argsText (f : Fix) (e : Ev) : List Byte :=
+  match e.args with
+  | none => b!"}"
+  | some vs =>
+    (if e.entry then b!",\"args\":{\"arguments\":\"" else b!",\"args\":{\"retval\":\"") ++
+    (argString f.abuf f.asym (!e.entry) vs).out ++ b!"\"}}"
+
+/-- one event object -/
+def evText (f : Fix) (e : Ev) : List Byte :=
   b!"{\"ts\":" ++ tsText e.time ++ b!",\"ph\":\"" ++ [if e.entry then 66 else 69] ++
   b!"\",\"pid\":" ++
   (if e.pid = e.tid then dec e.tid else dec e.pid ++ b!",\"tid\":" ++ dec e.tid) ++
-  b!",\"name\":\"" ++ (escapeName fixed e.name).out ++ b!"\"}"
+  b!",\"name\":\"" ++ (escapeName f.main e.name).out ++ [34] ++ argsText f e
 
 /-- the sequence of `dump_chrome_task_rstack` calls with the `last_comma` flag -/
-def evsText (fixed : Bool) : Bool → List Ev → List Byte
+def evsText (f : Fix) : Bool → List Ev → List Byte
   | _, [] => []
-  | lc, e :: es => (if lc then b!",\n" else []) ++ evText fixed e ++ evsText fixed true es
+  | lc, e :: es => (if lc then b!",\n" else []) ++ evText f e ++ evsText f true es
 
 /-- `dump_chrome_footer` -/
 def footer (fixed : Bool) (version date : List Byte) (cmdline : Option (List Byte)) : List Byte :=
@@ -208,13 +303,20 @@ structure Doc where
   tasks : List Task
   evs : List Ev
 
-def chromeOutput (fixed : Bool) (d : Doc) : List Byte :=
-  let h := header fixed (commOf d.exename) d.tasks
-  h.1 ++ evsText fixed h.2 d.evs ++ footer fixed d.version d.date d.cmdline
+def chromeOutput (f : Fix) (d : Doc) : List Byte :=
+  let h := header f.main (commOf d.exename) d.tasks
+  h.1 ++ evsText f h.2 d.evs ++ footer f.main d.version d.date d.cmdline
 
-/-- does any event name overrun `name_buf` (undefined behaviour in C)? -/
-def chromeOob (fixed : Bool) (d : Doc) : Bool :=
-  d.evs.any fun e => (escapeName fixed e.name).oob
+/-- does the argument string of the event overrun `spec_buf`? -/
+def argsOob (f : Fix) (e : Ev) : Bool :=
+  match e.args with
+  | none => false
+  | some vs => (argString f.abuf f.asym (!e.entry) vs).oob
+
+/-- does any event name overrun `name_buf`, or any argument string `spec_buf`
+    (undefined behaviour in C)? -/
+def chromeOob (f : Fix) (d : Doc) : Bool :=
+  d.evs.any fun e => (escapeName f.main e.name).oob || argsOob f e
 
 /-! ## a JSON recogniser (RFC 8259 grammar, ASCII only: bytes ≥ 0x80 are rejected,
     so acceptance does not depend on the encoding) -/
